@@ -34,6 +34,7 @@ inline std::string hex_encode(const std::string &s) {
 inline int hv(char c) { return c <= '9' ? c - '0' : (c | 32) - 'a' + 10; }
 inline std::string hex_decode(const std::string &s) {
   std::string o;
+  if (s == "-") return o;
   for (size_t i = 0; i + 1 < s.size(); i += 2) o.push_back(static_cast<char>(hv(s[i]) * 16 + hv(s[i + 1])));
   return o;
 }
